@@ -379,11 +379,21 @@ class Facts:
                     truth = 0 in listed
                     out.extend(atoms_of_bool(D, truth))
             else:
+                ty = self.an.operand_ty(self.an.blocks[p]["term"]["discr"])
+                tn = ty["s"] if ty is not None and ty.get("k") == "int" else "int"
+
+                def cv(v):
+                    v = int(v)
+                    if tn.startswith("i") and tn != "int":
+                        bits = {"i8": 8, "i16": 16, "i32": 32, "i64": 64, "isize": 64, "i128": 128}.get(tn, 64)
+                        if v >= 1 << (bits - 1):
+                            v -= 1 << bits          # switch values are the raw bits
+                    return ("const", tn, v)
                 if lab[0] == "sw":
-                    out.append(mk_eq(D, ("const", "int", int(lab[1]))))
+                    out.append(mk_eq(D, cv(lab[1])))
                 else:
                     for v in lab[1]:
-                        out.append(mk_ne(D, ("const", "int", int(v))))
+                        out.append(mk_ne(D, cv(v)))
         elif ev["k"] == "assert":
             out.extend(atoms_of_bool(ev["cond"], ev["expected"]))
             if ev["kind"] == "bounds":
